@@ -321,3 +321,74 @@ Proof.
   intros Hv. unfold skip_outputs, iter_required.
   rewrite (goo_valid_some _ _ _ Hv). eauto.
 Qed.
+
+(* ---------- skip mode on the DEFAULT expression: graph-required outputs ---------- *)
+From Cylc Require Import Proofs.CompletionProofs.
+
+Lemma required_in_parts0 t o :
+  In o (required t) -> exists c, parts0 t = [c] /\ In o (vars c).
+Proof.
+  intros Ho. unfold parts0.
+  destruct (conj_list (map BVar (required t))) as [c|] eqn:E.
+  - exists c. split; [reflexivity|]. apply (vars_conj_list _ _ _ E).
+    exists (BVar o). split; [now apply in_map|now left].
+  - destruct (required t); [destruct Ho|discriminate].
+Qed.
+
+Lemma required_in_default_vars t e o :
+  default_expr t = Some e -> In o (required t) -> In o (vars e).
+Proof.
+  intros He Ho. unfold default_expr in He. apply (vars_disj_list _ _ _ He).
+  destruct (required_in_parts0 t o Ho) as [c [Hc Hv]].
+  rewrite default_parts_eq. unfold parts1. rewrite Hc.
+  destruct (fail_tolerated t).
+  - eexists. split; [apply in_or_app; left; now left|].
+    cbn. rewrite <- app_assoc. apply in_or_app. now left.
+  - exists c. split; [apply in_or_app; left; now left|exact Hv].
+Qed.
+
+Lemma default_expr_valid t e :
+  In SUCCEEDED (map fst t) -> In FAILED (map fst t) ->
+  default_expr t = Some e -> valid e (map fst t).
+Proof.
+  intros H4 H5 He a Ha. unfold default_expr in He.
+  apply (vars_disj_list _ _ _ He) in Ha. destruct Ha as [p [Hp Ha]].
+  destruct (default_parts_vars t p a Hp Ha) as [H|H].
+  - right. unfold required in H. apply in_map_iff in H. destruct H as [q [<- Hq]].
+    apply filter_In in Hq. apply in_map. tauto.
+  - cbn in H. destruct H as [<-|[<-|[<-|[<-|[]]]]]; auto.
+Qed.
+
+Lemma skip_default_graph_required t e l o :
+  In SUCCEEDED (map fst t) -> In FAILED (map fst t) ->
+  default_expr t = Some e ->
+  skip_outputs (Some e) (map fst t) [] = Some l ->
+  In o (required t) -> o <> SUCCEEDED -> o <> FAILED -> In o l.
+Proof.
+  intros H4 H5 He Hs Ho Hns Hnf.
+  pose proof (default_expr_valid t e H4 H5 He) as Hv.
+  destruct (skip_In (Some e) (map fst t) [] l o Hs) as [req [Hreq HI]].
+  apply HI. right; right; left. repeat split; auto.
+  apply (iter_required_In _ _ _ _ o Hreq).
+  assert (Hout : In o (map fst t)).
+  { unfold required in Ho. apply in_map_iff in Ho. destruct Ho as [q [<- Hq]].
+    apply filter_In in Hq. apply in_map. tauto. }
+  split; [exact Hout|].
+  rewrite (classify_valid _ _ _ _ Hv).
+  assert (Hu : uses e o = true) by (apply uses_In; eapply required_in_default_vars; eauto).
+  rewrite Hu. f_equal.
+  assert (Ee : completion_expr t None = e) by (unfold completion_expr; now rewrite He).
+  rewrite <- Ee, default_expr_semantics. unfold spec_complete.
+  set (s := missing_with (Some (skip_disable [])) o).
+  assert (Hso : s o = false).
+  { unfold s, missing_with, alone_missing. rewrite Nat.eqb_refl. cbn. now rewrite !andb_false_r. }
+  assert (Hsf : s FAILED = false) by reflexivity.
+  assert (Hss : s SUBMIT_FAILED = false) by reflexivity.
+  assert (Hse : s EXPIRED = false) by reflexivity.
+  assert (Hreq' : forallb s (required t) = false).
+  { destruct (forallb s (required t)) eqn:E; [|reflexivity].
+    rewrite forallb_forall in E. rewrite (E o Ho) in Hso. discriminate. }
+  assert (Hne : nonempty (required t) = true) by (destruct (required t); [destruct Ho|reflexivity]).
+  rewrite Hreq', Hne, Hsf, Hss, Hse. rewrite orb_true_r. cbn.
+  destruct (fail_tolerated t); cbn; now rewrite !andb_false_r.
+Qed.
